@@ -29,13 +29,10 @@ def suites : List (String × (IO.FS.Stream → IO.FS.Stream → IO Unit)) :=
   [("convert", ConvertSuite.run)] ++
   [("cl", CLSuite.run)] ++
   [("share", ShareSuite.run)] ++
+  [("route", RouteSuite.run)] ++
+  [("lockup", LockupSuite.run)] ++
+  [("ibc", IbcSuite.run)] ++
   []
-def suites : List (String × (IO.FS.Stream → IO.FS.Stream → IO Unit)) := [
-  ("convert", ConvertSuite.run),
-  ("route", RouteSuite.run)
-  ("lockup", LockupSuite.run)
-  ("ibc", IbcSuite.run)
-]
 
 def main : IO Unit := do
   let out ← IO.getStdout
